@@ -332,13 +332,16 @@ func FamilyFaultsAndRestarts(r *Runner) {
 				w.Gate(true)
 				rq := inc.AddCheckpoint(step(l, from.n, to))
 				nops = 0
-				for !w.IsDone(rq) {
-					p := w.PendingOf(rq)
-					if len(p) == 0 {
+				for {
+					st := w.progress(rq)
+					if st == "done" {
+						break
+					}
+					if st != "pending" {
 						return fmt.Errorf("dry run stuck")
 					}
 					nops++
-					w.Release(p[0], OK)
+					w.Release(w.PendingOf(rq)[0], OK)
 				}
 				return nil
 			})
@@ -422,9 +425,10 @@ func FamilyConcurrent(r *Runner) {
 					r2 := inc.AddCheckpoint(acReq{Log: l, Old: 2, F: y.f, N: y.n, Proof: "right", Sig: "valid"})
 					// whichever can move, moves
 					for i := 0; i < 200 && !(w.IsDone(r1) && w.IsDone(r2)); i++ {
-						p := w.PendingOf(r2)
+						ps := w.WaitAny(r2, r1)
+						p := ps[0]
 						if len(p) == 0 {
-							p = w.PendingOf(r1)
+							p = ps[1]
 						}
 						if len(p) == 0 {
 							break
@@ -786,13 +790,16 @@ func FamilyMirror(r *Runner) {
 			w.Gate(true)
 			rq := inc.AddEntries(aeReq{Log: l, F: "M", Start: from, End: 300})
 			nops = 0
-			for !w.IsDone(rq) {
-				p := w.PendingOf(rq)
-				if len(p) == 0 {
+			for {
+				st := w.progress(rq)
+				if st == "done" {
+					break
+				}
+				if st != "pending" {
 					return fmt.Errorf("dry run stuck")
 				}
 				nops++
-				w.Release(p[0], OK)
+				w.Release(w.PendingOf(rq)[0], OK)
 			}
 			return nil
 		})
@@ -857,13 +864,16 @@ func FamilyMirror(r *Runner) {
 			w.Gate(true)
 			rq := inc.AddEntries(aeReq{Log: l, F: "M", Start: 0, End: 300})
 			nops = 0
-			for !w.IsDone(rq) {
-				p := w.PendingOf(rq)
-				if len(p) == 0 {
+			for {
+				st := w.progress(rq)
+				if st == "done" {
+					break
+				}
+				if st != "pending" {
 					return fmt.Errorf("dry run stuck")
 				}
 				nops++
-				w.Release(p[0], OK)
+				w.Release(w.PendingOf(rq)[0], OK)
 			}
 			return nil
 		})
@@ -890,10 +900,11 @@ func FamilyMirror(r *Runner) {
 				case "upload-longer":
 					rc := inc.AddCheckpoint(acReq{Log: l, Old: 300, F: "M", N: 600, Proof: "right", Sig: "valid"})
 					for i := 0; i < 50 && !w.IsDone(rc); i++ {
-						if p := w.PendingOf(rc); len(p) > 0 {
-							w.Release(p[0], OK)
-						} else if p := w.PendingOf(r1); len(p) > 0 {
-							w.Release(p[0], OK)
+						ps := w.WaitAny(rc, r1)
+						if len(ps[0]) > 0 {
+							w.Release(ps[0][0], OK)
+						} else if len(ps[1]) > 0 {
+							w.Release(ps[1][0], OK)
 						}
 					}
 					r2 = inc.AddEntries(aeReq{Log: l, F: "M", Start: 0, End: 600})
@@ -901,10 +912,11 @@ func FamilyMirror(r *Runner) {
 					r2 = inc.AddCheckpoint(acReq{Log: l, Old: 300, F: "M", N: 600, Proof: "right", Sig: "valid"})
 				}
 				for i := 0; i < 500 && !(w.IsDone(r1) && w.IsDone(r2)); i++ {
-					p := w.PendingOf(r2)
+					ps := w.WaitAny(r2, r1)
+					p := ps[0]
 					if len(p) == 0 || i%3 == 2 {
-						if q := w.PendingOf(r1); len(q) > 0 {
-							p = q
+						if len(ps[1]) > 0 {
+							p = ps[1]
 						}
 					}
 					if len(p) == 0 {
